@@ -299,3 +299,6 @@ theorem xt_sequenceOf (eD eE : Ty) (c : SizeC) (ih : XT eD eE) :
       exact St.eq_of_pos _ (by omega)
 
 end Asn1.Ext.PerX
+
+#print axioms Asn1.Ext.PerX.xt_sequenceOf
+#print axioms Asn1.Ext.PerX.xt_enumeratedD
